@@ -94,6 +94,10 @@ pub fn run_bisync(
     let host = host_id();
     // Start from the trusted base and mutate to the new common state as we apply.
     let mut common = base;
+    // A path gone from BOTH sides gets no action (reconcile walks only a ∪ b), so its
+    // entry must be dropped here: a stale entry would turn a later re-creation with the
+    // same content into a delete of the new file.
+    common.retain(|p, _| a.contains_key(p) || b.contains_key(p));
     let mut conflict_paths: Vec<PathBuf> = Vec::new();
     for (path, act) in &plan {
         apply(
